@@ -181,9 +181,18 @@ impl Band {
     /// Open the band with the given id.
     pub async fn open(archive: &Archive, band_id: BandId) -> Result<Band> {
         let transport = archive.transport().chdir(&band_id.to_string());
-        let head: Head = read_json(&transport, BAND_HEAD_FILENAME)
-            .await?
-            .ok_or(Error::BandHeadMissing { band_id })?;
+        let head: Head = match read_json(&transport, BAND_HEAD_FILENAME).await {
+            Ok(Some(head)) => head,
+            Ok(None) => return Err(Error::BandHeadMissing { band_id }),
+            // An empty head file is what an interrupted write leaves behind: the band has no
+            // head yet, which is not the same as having a damaged one.
+            Err(crate::jsonio::Error::Json { source, .. })
+                if source.is_eof() && source.line() <= 1 && source.column() == 0 =>
+            {
+                return Err(Error::BandHeadMissing { band_id });
+            }
+            Err(err) => return Err(err.into()),
+        };
         if let Some(version) = &head.band_format_version {
             if !band_version_supported(version) {
                 return Err(Error::UnsupportedBandVersion {
